@@ -8,7 +8,7 @@ reflection objects: outside the VC subset) and the symbol-by-symbol comparison, 
 library modules and generated modules.
 """
 from __future__ import annotations
-from pyvc.api import contract, Loop
+from pyvc.api import contract, lemma, Loop
 from specs.symspec import DB
 import specs.symspec  # noqa: F401
 
@@ -115,7 +115,58 @@ contract(DB, 'SymbolDB.import_json', 'C14', types={**TS, 'serializer': 'Serializ
 		U('implies(k in self.__items, k in old(self.__items) or k in data)', k='str'),
 		U('implies(m in old(self.__completed), m in self.__completed)', m='str')])})
 
-# SymbolDB.unload filters dict keys through a comprehension and deletes in a loop: left to the reference-model histories of the twin
+DIST = 'all(all(implies(a < b, xs[a] != xs[b]) for b in range(len(xs))) for a in range(len(xs)))'
+
+
+@lemma(['C14', 'C04', 'C07'], requires=['0 <= i', 'i < k', 'k <= len(xs)', DIST], ensures=['xs[i] not in xs[i + 1:k]'], decreases='k - i')
+def lemma_tail_free(xs: list[str], i: int, k: int):
+	"""In a duplicate-free list an element does not occur again behind its position."""
+	if k > i + 1:
+		lemma_tail_free(xs, i, k - 1)
+		cut(xs[i + 1:k] == xs[i + 1:k - 1] + [xs[k - 1]])
+		cut(xs[k - 1] != xs[i])
+
+
+@lemma(['C14', 'C04', 'C07'], requires=['x in xs', DIST],
+	ensures=['x not in xs[:xs.index(x)] + xs[xs.index(x) + 1:]', 'all(implies(y != x, (y in xs[:xs.index(x)] + xs[xs.index(x) + 1:]) == (y in xs)) for y in universe("str"))'])
+def lemma_remove_first(xs: list[str], x: str):
+	"""list.remove on a duplicate-free list removes the element and nothing else."""
+	lemma_tail_free(xs, xs.index(x), len(xs))
+
+
+@lemma(['C14', 'C04', 'C07'], requires=['x in xs'], ensures=['0 <= xs.index(x)', 'xs.index(x) < len(xs)', 'xs[xs.index(x)] == x'])
+def lemma_index_at(xs: list[str], x: str):
+	"""list.index of a member is a position that holds it."""
+	pass
+
+
+NODUP = 'all(all(implies(a < b, self.__completed[a] != self.__completed[b]) for b in range(len(self.__completed))) for a in range(len(self.__completed)))'
+contract(DB, 'SymbolDB.unload', ['C04', 'C14', 'C07'], types={**TS, 'return': 'None', 'in_module_keys': 'list[str]'},
+	stmt_rewrites={'in_module_keys = [key for key in self.__items.keys() if self.__paths[key][0] == module_path]': 'in_module_keys = keys_of_module(self.__items, self.__paths, module_path)'},
+	requires=[SAME_KEYS, NODUP],
+	modifies=['self.__items', 'self.__paths', 'self.__completed'],
+	# no exception: unloading a module that is only partly loaded (symbols but no completion mark), or not loaded at all, is fine
+	raises={},
+	hints_entry=['implies(module_path in self.__completed, lemma_remove_first(self.__completed, module_path))'],
+	ensures=[
+		# exactly the symbols of the module are removed; every other key keeps its symbol and its path
+		U('implies(k in self.__items, k in old(self.__items) and old(self.__paths)[k][0] != module_path)', k='str'),
+		U('implies(k in old(self.__items) and old(self.__paths)[k][0] != module_path, k in self.__items)', k='str'),
+		U('implies(k in self.__items, self.__items[k] == old(self.__items)[k] and self.__paths[k] == old(self.__paths)[k])', k='str'),
+		SAME_KEYS,
+		# the module no longer counts as completed; the marks of the other modules stay
+		'module_path not in self.__completed', U('implies(m != module_path, (m in self.__completed) == (m in old(self.__completed)))', m='str')],
+	loops={0: Loop(invariant=['0 <= _i', '_i <= len(_seq)', '_seq == keys_of_module(old(self.__items), old(self.__paths), module_path)', SAME_KEYS,
+		# the keys listed so far are gone, nothing else is, and what stays is untouched
+		U('implies(0 <= j and j < _i, _seq[j] not in self.__items)', j='int'),
+		U('implies(k in old(self.__items) and k not in self.__items, k in _seq and _seq.index(k) < _i)', k='str'),
+		U('implies(k in old(self.__items) and old(self.__paths)[k][0] != module_path, k in self.__items)', k='str'),
+		U('implies(k in self.__items, k in old(self.__items) and self.__items[k] == old(self.__items)[k] and self.__paths[k] == old(self.__paths)[k])', k='str'),
+		'module_path not in self.__completed', U('implies(m != module_path, (m in self.__completed) == (m in old(self.__completed)))', m='str')],
+		hints_head=['all(implies(k in _seq, lemma_index_at(_seq, k)) for k in universe("str"))'],
+		hints_exit=['all(implies(k in _seq, lemma_index_at(_seq, k)) for k in universe("str"))',
+			'cut(all(implies(k in _seq, k not in self.__items) for k in universe("str")))',
+			'cut(all(implies(k in old(self.__items) and old(self.__paths)[k][0] == module_path, k in _seq) for k in universe("str")))'])})
 
 TRUSTED_BASE = ['IReflection.attrs / types.fullyname / types.module_path as uninterpreted observers of an opaque reflection identity; reachability through attrs axiomatised by its unfolding (reflexive, closed under children, every proper descendant is reached through a child)']
 ASSUMPTIONS = ['the type-reference graph of the table is acyclic within the exported module (a rank on keys exists); the entry stored under a type name is that type\'s own symbol; module paths are non-empty: preconditions of the export contracts, validated natively on every table the twin builds',
